@@ -2,7 +2,7 @@
    Statements only; proofs in c15/C15_VarioProofs.v (kernel = pair enumeration, generic number type,
    from the .pyx translated on every run) and c08/C08_Math.v (meaning of the enumeration over R). *)
 From Coq Require Import Reals ZArith List Bool Permutation.
-From GS Require Import Num Loops Cellwise RInst Estimator_gen C15_VarioSpec C15_VarioProofs C08_Math.
+From GS Require Import Num Loops Cellwise RInst Estimator_gen C15_VarioSpec C15_VarioProofs C15_DirSpec C15_DirProofs C08_Math.
 Import ListNotations.
 
 (* 1. the kernels as run (identity schedule) ARE the enumeration of all pairs j<k, bin by bin;
@@ -22,6 +22,23 @@ Theorem C08_ma_structured_is_lag_enumeration :
   forall (T : Type) (O : NumOps T) f mask et, ma_structured O f mask et = ma_structured_spec O f mask et.
 Proof. intros. apply ma_structured_any_schedule. intros; apply is_sched_id. Qed.
 Print Assumptions C08_ma_structured_is_lag_enumeration.
+
+(* directional estimator: entry (d,i) is the fold over all pairs in bin i that are SELECTED for direction d
+   (pass d's angle/bandwidth test and, for separated directions, no earlier direction's test) *)
+Theorem C08_directional_is_pair_enumeration :
+  forall (T : Type) (O : NumOps T) f edges pos direction tol bw sep et,
+    directional O f edges pos direction tol bw sep et = directional_spec O f edges pos direction tol bw sep et.
+Proof. intros. apply directional_any_schedule, is_sched_id. Qed.
+Print Assumptions C08_directional_is_pair_enumeration.
+
+(* the early break for separated directions changes nothing for a pair that passes at most one direction test *)
+Theorem C08_break_harmless :
+  forall (T : Type) (O : NumOps T) pos direction tol bw dist j k d,
+    (forall d1 d2, d1 <> d2 -> passes O pos direction tol bw dist j k d1 = true ->
+                   passes O pos direction tol bw dist j k d2 = false) ->
+    selected O pos direction tol bw true dist j k d = selected O pos direction tol bw false dist j k d.
+Proof. exact @break_harmless. Qed.
+Print Assumptions C08_break_harmless.
 
 (* 2. the enumerated list is exactly the set of unordered pairs *)
 Theorem C08_pairs_are_all_pairs : forall n j k, In (j, k) (pairs n) <-> (j < k < n)%nat.
